@@ -77,6 +77,19 @@ def gen_repo(rng, root):
     if rng.random() < 0.3:
         os.makedirs(os.path.join(root, 'eclass', 'tests'), exist_ok=True)
         open(os.path.join(root, 'eclass', 'tests', 'a.sh'), 'w').write('#!/bin/sh\n')
+    # an unchanged version bump: a second ebuild with the very same content (its entry differs from the first one's by the
+    # path alone); which of the two a later edit deletes is drawn in edit()
+    twins = []
+    for c in cats:
+        for pkg in sorted(os.listdir(os.path.join(root, c))):
+            pd = os.path.join(root, c, pkg)
+            ebs = sorted(f for f in os.listdir(pd) if f.endswith('.ebuild')) if os.path.isdir(pd) else []
+            if ebs and rng.random() < 0.5:
+                src = os.path.join(pd, ebs[0])
+                dst = os.path.join(pd, '%s-9%d.ebuild' % (pkg, rng.randint(0, 9)))
+                shutil.copyfile(src, dst)
+                twins.append((src, dst))
+    gen_repo.twins = twins
     # pre-existing package Manifests with DIST entries
     for c in cats:
         for pkg in sorted(os.listdir(os.path.join(root, c))):
@@ -238,6 +251,13 @@ def edit(rng, root):
              if not f.startswith('Manifest') and '/.' not in dp and not f.startswith('.')]
     dirs = [dp for dp, dn, fn in os.walk(root) if '/.' not in dp and os.path.basename(dp) not in ('metadata',)]
     kinds = []
+    # one of two identical files goes (the later or the earlier one in the Manifest)
+    tw = [(a, b) for a, b in getattr(gen_repo, 'twins', []) if a.startswith(root + os.sep) and os.path.isfile(a) and os.path.isfile(b)]
+    if tw and rng.random() < 0.6:
+        a, b = rng.choice(tw)
+        victim = rng.choice([a, b])
+        os.unlink(victim)
+        kinds.append(('delete-twin', os.path.relpath(victim, root)))
     for _ in range(rng.randint(0, 5)):
         k = rng.choice(['change', 'change', 'add', 'delete'])
         if k == 'add':
